@@ -7,6 +7,7 @@ import (
 	"fmt"
 	"math/rand"
 	"os"
+	"runtime/debug"
 	"strconv"
 	"strings"
 	"sync"
@@ -40,6 +41,7 @@ type hdStats struct {
 	LateExtends  int            `json:"extensions_asked_after_the_deadline_passed"`
 	Crashed      int            `json:"crashed_histories"`
 	SlowListener int            `json:"histories_with_a_slow_action_listener"`
+	FailedStarts int            `json:"hands_the_backend_refused_to_create"`
 	MaxSteps     int            `json:"max_backend_calls_per_hand"`
 	Distinct     int            `json:"distinct_histories"`
 	Samples      []string       `json:"samples"`
@@ -60,6 +62,7 @@ func mergeHD(d, s *hdStats) {
 	d.Faults += s.Faults
 	d.Stuck += s.Stuck
 	d.SlowListener += s.SlowListener
+	d.FailedStarts += s.FailedStarts
 	d.Withheld += s.Withheld
 	d.LateExtends += s.LateExtends
 	if s.MaxSteps > d.MaxSteps {
@@ -321,9 +324,27 @@ func (h *hdHist) submit(a actSpec, isProbe bool, fault bool) error {
 	}
 	ev := "-"
 	h.rig.mu.Lock()
+	// the event this call published: events of the engine's own steps (antes collected for everybody, …) may still be
+	// trickling in through a slow listener, so pick this player's event of this kind among the new ones — else this
+	// player's last new event (a wrong kind must show), else none
 	if len(h.rig.actions) > nEv {
-		x := h.rig.actions[len(h.rig.actions)-1]
-		ev = lastStr(&x)
+		pick := -1
+		for i := nEv; i < len(h.rig.actions); i++ {
+			if h.rig.actions[i].PlayerID == pid(a.id) && h.rig.actions[i].Action == a.kind {
+				pick = i
+			}
+		}
+		if pick < 0 {
+			for i := nEv; i < len(h.rig.actions); i++ {
+				if h.rig.actions[i].PlayerID == pid(a.id) {
+					pick = i
+				}
+			}
+		}
+		if pick >= 0 {
+			x := h.rig.actions[pick]
+			ev = lastStr(&x)
+		}
 	}
 	h.rig.mu.Unlock()
 	h.line("hd act st=%s id=%d kind=%s arg=%d legal=%s probe=%s bk=%s nr=%d same=%s ev=%s | %s", stAt, a.id, a.kind, a.arg, b01(legal), b01(isProbe), bk, nr, same, ev, tbErrName(err))
@@ -633,8 +654,22 @@ func (h *hdHist) playHandSteps(maxSteps int) bool {
 	return false
 }
 
-func genHDHistory(r *rand.Rand, st *hdStats, hid int, hands int, faultPct, probePct, internalPct int, withholdAt string) string {
+func genHDHistory(r *rand.Rand, st *hdStats, hid int, hands int, faultPct, probePct, internalPct int, withholdAt string) (out string) {
 	h := &hdHist{w: &strings.Builder{}, r: r, st: st, faultPct: faultPct, probePct: probePct, internalPct: internalPct, withholdAt: withholdAt}
+	// a panic inside a synchronous engine call: the engine crashed on this very history (see genTBHistory)
+	defer func() {
+		if e := recover(); e != nil {
+			where := panicSite(string(debug.Stack()))
+			if !strings.Contains(where, "github.com/weedbox/pokertable") {
+				panic(e)
+			}
+			h.line("# panic inside a synchronous engine call: %v at %s", e, where)
+			h.line("hd crash h=%d | %s at %s", hid, strings.ReplaceAll(fmt.Sprint(e), "\n", " "), where)
+			h.line("hd end errors=-")
+			st.Crashed++
+			out = h.w.String()
+		}
+	}()
 	maxSeat := 9
 	n := 2 + r.Intn(6)
 	blind := pokertable.TableBlindState{Level: 1, Ante: 0, Dealer: 0, SB: 10, BB: 20}
@@ -734,12 +769,38 @@ func genHDHistory(r *rand.Rand, st *hdStats, hid int, hands int, faultPct, probe
 			waitFor(200*time.Millisecond, func() bool { return rig.gateCount() == gcPre+1 })
 			time.Sleep(1500 * time.Microsecond)
 		}
+		// now and then the backend refuses to create the hand (a remote hand engine that is down; with the native one, a
+		// dealt-in player without chips): the table has opened a hand that does not exist — nobody can act in it
+		failStart := r.Intn(14) == 0
+		if failStart {
+			h.be.muF.Lock()
+			h.be.FailKind = "create"
+			h.be.FailKindLeft = 1
+			h.be.muF.Unlock()
+		}
 		// everybody awaited signals
 		_, ready, _ := rig.gateState()
 		for id := range ready {
 			rig.te.PlayerSettlementFinish(id)
 		}
 		h.t0 = time.Now().Unix()
+		if failStart {
+			waitFor(1500*time.Millisecond, func() bool { return rig.live().State.GameCount == gcPre+1 })
+			time.Sleep(3 * time.Millisecond)
+			schedBarrier(3)
+			h.be.muF.Lock()
+			h.be.FailKindLeft = 0
+			h.be.muF.Unlock()
+			t := rig.live()
+			h.line("hd failedstart gc=%d st=%s hasgame=%s", t.State.GameCount, statusShort(t.State.Status), b01(t.State.GameState != nil))
+			st.FailedStarts++
+			for i := 0; i < 5; i++ {
+				h.st.Probes++
+				h.st.ProbeKinds["failed-start/any"]++
+				h.submit(actSpec{h.ids[r.Intn(len(h.ids))], allKinds[r.Intn(len(allKinds))], 20}, true, false)
+			}
+			break
+		}
 		ok := waitFor(2600*time.Millisecond, func() bool {
 			t := rig.live()
 			return t.State.GameCount == gcPre+1 && t.State.Status == pokertable.TableStateStatus_TableGamePlaying && t.State.GameState != nil
